@@ -42,7 +42,9 @@ def random_target(rng):
 def random_request(rng, allow_fwd_in_conn=True):
     e2e = rng.sample(E2E, rng.randint(0, 4))
     hop = rng.sample(HOP, rng.randint(0, 2))
-    connpool = e2e + (FWD + ["X-Forwarded-For"] if allow_fwd_in_conn else [])
+    # tokens of the Connection header: carried end-to-end headers, forwarding headers, and the standard options a client may
+    # list without carrying a header of that name (a plain request naming Upgrade is still a plain request)
+    connpool = e2e + (FWD + ["X-Forwarded-For"] if allow_fwd_in_conn else []) + ["Upgrade", "keep-alive", "upgrade", "TE"]
     conn = rng.sample(connpool, rng.randint(0, min(3, len(connpool)))) if rng.random() < 0.5 else []
     upstream = rng.sample(FWD + ["X-Forwarded-For"], rng.randint(0, 3)) if rng.random() < 0.5 else []
     upempty = [h for h in rng.sample(FWD, rng.randint(0, 2)) if h not in upstream and h not in conn] if rng.random() < 0.4 else []
